@@ -208,7 +208,7 @@ impl Check for C19 {
         "fault_enumeration"
     }
     fn rule(&self) -> String {
-        "case = one generated directory tree (nested and dotted directories, names with spaces / non-ASCII / dots, non-note files, an empty directory, a big note with a hard-linked backup, an already-normalised note, a note without a final newline, a CRLF note) processed by the built `iwe normalize` binary under strace; fault-free run: every *.md holds exactly the in-memory export at the path it was read from, nothing else created / deleted / modified, no write-mode open outside the notes; faulted runs enumerate EVERY file-system syscall the main thread makes from its first write-mode open on (openat, write, close, rename, and whatever else the write path uses: copy_file_range, sendfile, fsync, unlink ...; strace counts per tracee): SIGKILL on entry to each, ENOSPC on each data-moving one, and RLIMIT_FSIZE budgets; a hard link to a note (a backup made with ln) must keep its old content; after each, every note file must hold its complete old or complete new text; trace specification on the fault-free run: a file renamed over a note was flushed (fsync / fdatasync on its descriptor) before the rename; a private note keeps mode and (run as root) owner, a symbolic-link note stays a link; one case runs projects whose .iwe/config.toml keeps the library in notes/ (complete, partial and unreadable configuration): nothing outside notes/ is touched; distinct = (fault kind, k) crash points".into()
+        "case = one generated directory tree (nested and dotted directories, names with spaces / non-ASCII / dots, non-note files, an empty directory, a big note with a hard-linked backup, an already-normalised note, a note without a final newline, a CRLF note) processed by the built `iwe normalize` binary under strace; fault-free run: every *.md holds exactly the in-memory export at the path it was read from, nothing else created / deleted / modified, no write-mode open outside the notes; faulted runs enumerate EVERY file-system syscall the main thread makes from its first write-mode open on (openat, write, close, rename, and whatever else the write path uses: copy_file_range, sendfile, fsync, unlink ...; strace counts per tracee): SIGKILL on entry to each, ENOSPC on each data-moving one, and RLIMIT_FSIZE budgets; a hard link to a note (a backup made with ln) must keep its old content; after each, every note file must hold its complete old or complete new text; trace specification on the fault-free run: a file renamed over a note was flushed (fsync / fdatasync on its descriptor) before the rename; a private note keeps mode and (run as root) owner, a symbolic-link note stays a link; one case runs projects whose .iwe/config.toml keeps the library in notes/ (partial, library-only, syntactically broken, not UTF-8 and misspelt configurations): nothing outside notes/ is touched; distinct = (fault kind, k) crash points".into()
     }
     fn assumptions(&self) -> Vec<String> {
         vec![
@@ -261,7 +261,10 @@ impl Check for C19 {
         if case == tier.pick(2, 30) + 2 {
             // a project whose configuration keeps the library in notes/: files outside of it are not the command's business,
             // whether the configuration is complete, leaves tables out, or cannot be read at all
-            let configs: [(&str, &str); 3] = [
+            let configs: [(&str, &str); 5] = [
+                // (not UTF-8: a Latin-1 byte in a comment; a misspelt table name)
+                ("not-utf8", "# biblioth\u{e8}que\n[library]\npath = \"notes\"\n"),
+                ("misspelt-table", "[libary]\npath = \"notes\"\n"),
                 ("partial", "prompt_key_prefix = \"prompt\"\n[markdown]\nrefs_extension = \".md\"\n[library]\npath = \"notes\"\n"),
                 ("syntax-error", "[library]\npath = \"notes\n"),
                 ("library-only", "[library]\npath = \"notes\"\n"),
@@ -270,7 +273,7 @@ impl Check for C19 {
                 let dir = mon::scratch_dir("c19");
                 let log = dir.with_extension("strace");
                 let mut files = BTreeMap::new();
-                files.insert(".iwe/config.toml".to_string(), config.as_bytes().to_vec());
+                files.insert(".iwe/config.toml".to_string(), if class == "not-utf8" { config.chars().map(|c| c as u32 as u8).collect() } else { config.as_bytes().to_vec() });
                 files.insert("notes/a.md".to_string(), b"# A\n\n*  item\n\n[t](b.md)\n".to_vec());
                 files.insert("notes/b.md".to_string(), b"# B\n".to_vec());
                 files.insert("README.md".to_string(), b"Readme\n======\n\n* x\n".to_vec());
@@ -285,7 +288,7 @@ impl Check for C19 {
                         rep.violate("file-outside-library-modified", &format!("config:{}", class), format!("{} lies outside the configured library notes/ and was rewritten by `iwe normalize` ({}): {:?}", outside, r.status, r.after.get(outside).map(|c| String::from_utf8_lossy(c).to_string())), json!({"config": config, "files": files.keys().collect::<Vec<_>>()}));
                     }
                 }
-                if class != "syntax-error" {
+                if class == "partial" || class == "library-only" {
                     // the library itself is normalised, with the configured extension kept on the link
                     let a = r.after.get("notes/a.md").map(|c| String::from_utf8_lossy(c).to_string()).unwrap_or_default();
                     let want = if class == "partial" { "# A\n\n- item\n\n[B](b.md)\n" } else { "# A\n\n- item\n\n[B](b)\n" };
